@@ -8,31 +8,54 @@ from vlib import hexd, frac, frac_of_hex, unhex
 EPS = 2.0 ** -52
 
 
-def gen_case(g, tier, idx):
+STYLES = ["dyadic", "full", "tinyscale", "illcond", "rankdef", "scalar", "tall", "identityH", "diagonal", "zeroinnov", "symH", "hugescale", "mixedscale", "full"]
+
+
+def scale_of(r, style, which):
+    """overall magnitude of a covariance: the property constrains conditioning, not scale"""
+    if style == "tinyscale":
+        return 10 ** r.uniform(-10, -4)
+    if style == "hugescale":
+        return 10 ** r.uniform(4, 10)
+    if style == "mixedscale":
+        return 10 ** (r.uniform(-9, -4) if (which == "P") == (r.random() < 0.5) else r.uniform(3, 8))
+    return None
+
+
+def gen_model(g, tier, idx):
+    """dimensions + measurement model (H, R) shared by the calls of one sequence"""
     r = g.r
     big = 6 if tier == "quick" else 8
-    style = r.choice(["dyadic", "full", "full", "illcond", "rankdef", "scalar", "tall"])
-    if style == "scalar":
+    style = STYLES[idx % len(STYLES)] if idx < 3 * len(STYLES) else r.choice(STYLES)
+    if idx < 36:
+        n, m = idx // 6 + 1, idx % 6 + 1          # the whole (n, m) grid 1..6 x 1..6 first
+        if style in ("identityH", "symH"):
+            m = n
+        if style == "scalar":
+            style = "full"
+    elif style == "scalar":
         n, m = 1, 1
     elif style == "tall":
         n = r.randint(1, 3)
         m = r.randint(n + 1, min(big, n + 3))
+    elif style in ("identityH", "symH"):
+        n = m = r.randint(1, big)
     else:
         n, m = r.randint(1, big), r.randint(1, big)
-    k = r.choice([1, 1, 2, 3, 4])
     if style == "dyadic":
-        Ps = [g.spd_dyadic(n) for _ in range(k)]
         R = g.spd_dyadic(m)
         H = [[g.dyadic(-2, 2, 3) for _ in range(n)] for _ in range(m)]
-        means = [[g.dyadic(-4, 4, 3) for _ in range(n)] for _ in range(k)]
-        y = [g.dyadic(-4, 4, 3) for _ in range(m)]
     else:
         cond = 10 ** r.uniform(4, 6) if style == "illcond" else None
-        Ps = [g.spd(n, cond=cond) for _ in range(k)]
-        R = g.spd(m, cond=cond)
+        R = g.spd(m, cond=cond, scale=scale_of(r, style, "R"))
         H = g.mat(m, n)
-        means = [g.vec(n) for _ in range(k)]
-        y = g.vec(m)
+    if style == "identityH":
+        H = [[1.0 if i == j else 0.0 for j in range(n)] for i in range(m)]
+    if style == "symH":
+        H = [[H[min(i, j)][max(i, j)] for j in range(n)] for i in range(m)]
+    if style == "diagonal":
+        H = [[(H[i][j] if i == j else 0.0) for j in range(n)] for i in range(m)]
+        R = [[(R[i][j] if i == j else 0.0) for j in range(m)] for i in range(m)]
     if style == "rankdef" or (style == "tall" and r.random() < 0.5):
         mode = r.choice(["zero", "zerorow", "duprow", "rank1"])
         if mode == "zero":
@@ -44,13 +67,65 @@ def gen_case(g, tier, idx):
         elif mode == "rank1":
             u, v = g.vec(m, -1, 1), g.vec(n, -1, 1)
             H = [[u[i] * v[j] for j in range(n)] for i in range(m)]
+    return style, n, m, H, R
+
+
+def gen_call(g, style, n, m, H):
+    r = g.r
+    k = r.choice([1, 1, 2, 3, 4, 6])
+    if style == "dyadic":
+        Ps = [g.spd_dyadic(n) for _ in range(k)]
+        means = [[g.dyadic(-4, 4, 3) for _ in range(n)] for _ in range(k)]
+        y = [g.dyadic(-4, 4, 3) for _ in range(m)]
+    else:
+        cond = 10 ** r.uniform(4, 6) if style == "illcond" else None
+        Ps = [g.spd(n, cond=cond, scale=scale_of(r, style, "P")) for _ in range(k)]
+        means = [g.vec(n) for _ in range(k)]
+        y = g.vec(m)
+    if style == "diagonal":
+        Ps = [[[(P[i][j] if i == j else 0.0) for j in range(n)] for i in range(n)] for P in Ps]
+    if style == "zeroinnov":
+        # the measurement predicted by component 0 (rounded): innovation of component 0 is ~0
+        y = [float(sum(H[i][j] * means[0][j] for j in range(n))) for i in range(m)]
     outw = [r.uniform(0.01, 1.0) for _ in range(k)]
-    toks = ["kfc", str(n), str(m), str(k)] + vlib.fmt_mat_cm(H) + vlib.fmt_mat_cm(R) + [hexd(v) for v in y]
+    toks = [hexd(v) for v in y]
     toks += [hexd(means[c][i]) for c in range(k) for i in range(n)]
     toks += [hexd(Ps[c][i][j]) for c in range(k) for j in range(n) for i in range(n)]
     toks += [hexd(w) for w in outw]
-    meta = {"style": style, "n": n, "m": m, "k": k}
-    return " ".join(toks), meta
+    return k, toks
+
+
+def gen_case(g, tier, idx):
+    """one KFCorrection object, 1..3 correct() calls -> (harness line, [single-call kfc lines], meta)"""
+    style, n, m, H, R = gen_model(g, tier, idx)
+    ncalls = g.r.choice([1, 1, 2, 3])
+    head = vlib.fmt_mat_cm(H) + vlib.fmt_mat_cm(R)
+    seq = ["kfcs", str(n), str(m)] + head + [str(ncalls)]
+    singles = []
+    for _ in range(ncalls):
+        k, toks = gen_call(g, style, n, m, H)
+        seq += [str(k)] + toks
+        singles.append(" ".join(["kfc", str(n), str(m), str(k)] + head + toks))
+    return " ".join(seq), singles, {"style": style, "n": n, "m": m, "calls": ncalls}
+
+
+def split_seq_output(hout, ncalls):
+    """harness output of a kfcs line -> (prelik flag, [single-call style outputs])"""
+    if not hout.startswith("ok"):
+        return None, [hout] * ncalls
+    t = hout.split()
+    pre = t[1]
+    outs, cur = [], None
+    for x in t[2:]:
+        if x == "call":
+            if cur is not None:
+                outs.append("ok " + " ".join(cur))
+            cur = []
+        else:
+            cur.append(x)
+    if cur is not None:
+        outs.append("ok " + " ".join(cur))
+    return pre, outs
 
 
 def parse_case(line):
@@ -122,7 +197,9 @@ def check_case(ctx, line, meta, hout, dout, iout, stats):
     if same != "in-same":
         probs.append(("prop", "prior-modified", "the prior passed in was modified"))
     if [x for x in cw] != [x for x in outw]:
-        probs.append(("corr", "weights-written", "weights of the output mixture changed (model: not written)"))
+        # not part of C01 (the property does not speak about the weights of the output mixture):
+        # recorded, never an alarm
+        stats["note_weights_written"] = stats.get("note_weights_written", 0) + 1
     if likflag != "lik" or len(liks) != k:
         probs.append(("prop", "likelihood-missing", "likelihood not reported after a successful correction"))
     for c in range(k):
@@ -181,47 +258,82 @@ def check_case(ctx, line, meta, hout, dout, iout, stats):
     return probs
 
 
+def replay_case(path):
+    """re-run the input recorded in a replay file (a kfcs sequence line or a single kfc line)"""
+    import json
+    line = json.load(open(path))["replay"]["input_line"]
+    t = line.split()
+    if t[0] == "kfc":
+        return (line, [line], {"style": "replay", "calls": 1})
+    n, m = int(t[1]), int(t[2])
+    p = 3
+    head = t[p:p + m * n + m * m]; p += m * n + m * m
+    ncalls = int(t[p]); p += 1
+    singles = []
+    for _ in range(ncalls):
+        k = int(t[p]); p += 1
+        ln = m + n * k + n * n * k + k
+        singles.append(" ".join(["kfc", str(n), str(m), str(k)] + head + t[p:p + ln])); p += ln
+    return (line, singles, {"style": "replay", "n": n, "m": m, "calls": ncalls})
+
+
 def run(ctx):
     ctx.proof_stage()
     binary = vlib.build_harness("h_kf")
     g = ctx.gen("kfc")
-    N = ctx.n(160, 4000)
-    cases = []
+    N = ctx.n(110, 1000)
+    cases = []   # (harness line, [kfc single lines], meta)
     corpus = vlib.VERIF / "corpus" / "C01" / "cases.txt"
     if corpus.exists():
         for ln in corpus.read_text().split("\n"):
             if ln.strip():
-                cases.append((ln.strip(), {"style": "corpus"}))
+                cases.append((ln.strip(), [ln.strip()], {"style": "corpus", "calls": 1}))
     for i in range(N):
         cases.append(gen_case(g, ctx.tier, i))
-    lines = [c[0] for c in cases]
-    hout, logs = vlib.run_harness(binary, lines)
-    dout = vlib.run_driver(lines)
-    iout = vlib.run_driver([("kfinfo " + " ".join(l.split()[1:-int(l.split()[3])])) for l in lines])
-    stats, hist = {}, {}
+    if ctx.replay:
+        cases = [replay_case(ctx.replay)]
+    hlines = [c[0] for c in cases]
+    hout, logs = vlib.run_harness(binary, hlines)
+    singles = [l for c in cases for l in c[1]]
+    dout = vlib.run_driver(singles)
+    iout = vlib.run_driver([("kfinfo " + " ".join(l.split()[1:-int(l.split()[3])])) for l in singles])
+    stats, hist, dims = {}, {}, set()
     distinct = set()
     corr_bad, prop_bad = [], []
-    for (line, meta), h, d, io in zip(cases, hout, dout, iout):
-        key = "%s n=%s m=%s k=%s" % (meta.get("style"), meta.get("n"), meta.get("m"), meta.get("k"))
+    pos = 0
+    ncalls_total = 0
+    for (hline, slines, meta), h in zip(cases, hout):
         hist[meta.get("style")] = hist.get(meta.get("style"), 0) + 1
-        distinct.add(line)
-        for kind, key2, what in check_case(ctx, line, meta, h, d, io, stats):
-            (corr_bad if kind == "corr" else prop_bad).append((key2, what, line, h))
-    # decision
+        dims.add((meta.get("n"), meta.get("m")))
+        if hline.startswith("kfcs"):
+            pre, outs = split_seq_output(h, len(slines))
+            if pre is not None and pre != "noprelik":
+                stats["note_likelihood_before_correction"] = stats.get("note_likelihood_before_correction", 0) + 1   # outside C01: recorded only
+            if len(outs) != len(slines):
+                outs = (outs + ["crash:short-output"] * len(slines))[:len(slines)]
+        else:
+            outs = [h]
+        for sl, ho in zip(slines, outs):
+            distinct.add(sl)
+            ncalls_total += 1
+            for kind, key2, what in check_case(ctx, sl, meta, ho, dout[pos], iout[pos], stats):
+                (corr_bad if kind == "corr" else prop_bad).append((key2, what, hline, h))
+            pos += 1
     for key2, what, line, h in prop_bad[:20]:
         ctx.violation(key2, "KFCorrection: " + what, {"harness": "h_kf", "input_line": line, "observed": h[:2000]})
     if corr_bad and not prop_bad:
         key2, what, line, h = corr_bad[0]
         ctx.violation("correspondence:" + key2, "model and implementation disagree (%d cases), no property predicate failed: %s" % (len(corr_bad), what),
                       {"harness": "h_kf", "correspondence": "kfCorrect vs KFCorrection::correctStep", "input_line": line, "observed": h[:2000]}, no_input=True)
-    nontrivial = sum(1 for (l, m) in cases if m.get("n", 2) * m.get("m", 2) > 1 or m.get("k", 1) > 1)
+    nontrivial = sum(1 for sl in distinct if int(sl.split()[1]) * int(sl.split()[2]) > 1 or int(sl.split()[3]) > 1)
     ctx.coverage.update({
-        "evaluations": len(cases), "distinct_nontrivial": min(len(distinct), nontrivial),
-        "rule": "random KF corrections (n,m in 1..%d, k in 1..4; SPD with prescribed spectrum, cond<=1e6; H of any rank); "
-                "non-trivial = more than one scalar dimension or more than one component; distinct = distinct input lines" % (6 if ctx.quick() else 8),
+        "evaluations": ncalls_total, "distinct_nontrivial": nontrivial,
+        "rule": "KFCorrection objects used for 1..3 successive correct() calls each (new measurement, new component count per call); the (n,m) grid 1..6 x 1..6 "
+                "first, then random n,m up to %d; k in {1,2,3,4,6}; SPD with prescribed spectrum, cond<=1e6; H of any rank, identity/diagonal/symmetric/zero H, "
+                "zero innovation; non-trivial = more than one scalar dimension or more than one component; distinct = distinct single-call inputs" % (6 if ctx.quick() else 8),
         "samples": [cases[0][0][:400], cases[-1][0][:400]],
-        "style_histogram": hist, "numeric": stats,
-        "traces_validated_against_impl": len(cases),
+        "style_histogram": hist, "numeric": stats, "objects": len(cases), "nm_pairs_covered": len(dims),
+        "traces_validated_against_impl": ncalls_total,
         "model_vs_impl_disagreements": len(corr_bad), "property_failures_on_impl": len(prop_bad),
         "sanitizer_crashes": len(logs),
     })
